@@ -433,7 +433,7 @@ func vC01Gen(r *vRng, thorough bool) vSx {
 	}
 	budget := 140000 // bytes of payload per case (quick)
 	if thorough {
-		budget = 400000
+		budget = 250000
 	}
 	var ops []vSx
 	for i := 0; i < n; i++ {
@@ -551,18 +551,17 @@ func TestVerifC01(t *testing.T) {
 		runOne(c)
 	}
 	if k.thorough() && k.nOverr == 0 {
-		// the 24-bit length limit: 2^24-1 bytes in 131072 chunks of 128, and in 256 chunks of 65536 with
-		// an extended timestamp; a long script keeps these two out of the kernel-evaluated sample
+		// the 24-bit length limit: 2^24-1 bytes in 256 chunks of 65536 with an extended timestamp on a
+		// 3-byte-form chunk stream; a long script keeps this case out of the kernel-evaluated sample
 		var script []vSx
 		for i := 0; i < 700; i++ {
 			script = append(script, vI(4096+i%3))
 		}
 		big := vL(vI(1<<24-1), vI(17))
-		runOne(vL(vI(0), vLs(script), vL(), vL(vL(vI(0), vI(5), vU(1), vI(9), vU(1), big))))
 		runOne(vL(vI(1), vLs(script), vL(), vL(vL(vI(0), vI(2), vU(0), vI(1), vU(0), vB(vC01Be4(65536))),
 			vL(vI(0), vI(320), vU(0x7fffffff), vI(8), vU(0xffffffff), big), vL(vI(0), vI(5), vU(0), vI(9), vU(1), vL(vI(1), vI(0))))))
 	}
-	n := k.N(400, 2500)
+	n := k.N(400, 1000)
 	for i := 0; i < n; i++ {
 		runOne(vC01Gen(k.rnd, k.thorough()))
 	}
